@@ -1005,3 +1005,32 @@ def rule_sticky_flags(ctx: Ctx, rep: Report, rule: str, module_prefixes: tuple[s
             rep.ob(rule, f"{q}:{v}", False, fi.where(a), f"`{norm(a)[:70]}` inside a loop overwrites `{v}`, which is read after the loop: only the last iteration decides")
     rep.ob(rule, "scanned", True, "btclib:1", f"{n} functions in {module_prefixes}: every flag read after a loop is accumulated in it")
     rep.floor(rule, 2)
+
+
+def rule_points_compared_whole(ctx: Ctx, rep: Report, rule: str, module_prefixes: tuple[str, ...], floor: int) -> None:
+    """A verification equation is an equality of curve points, both coordinates:
+    `lhs == rhs`. Compared on x alone (`lhs[0] == rhs[0]`) it also holds for
+    -rhs, so the negation n - s of a valid (partial) signature verifies on this
+    arm and not on the other. Where a function that verifies compares the x of
+    two point-valued locals, it compares their y too (BIP340's `R.x == r` with
+    an even-y test is the other legitimate form: one side is not a point)."""
+    n = 0
+    for q, fi in sorted(ctx.prog.functions.items()):
+        if not any(q.startswith(p_) for p_ in module_prefixes) or "verify" not in fi.name:
+            continue
+        cmps = [c for c in own_nodes(fi.node) if isinstance(c, ast.Compare) and len(c.ops) == 1 and isinstance(c.ops[0], (ast.Eq, ast.NotEq))]
+        whole = [c for c in cmps if isinstance(c.left, ast.Name) and isinstance(c.comparators[0], ast.Name)]
+        for c in cmps:
+            l, r = c.left, c.comparators[0]
+            if all(isinstance(x, ast.Subscript) and isinstance(x.value, ast.Name) and isinstance(x.slice, ast.Constant) and x.slice.value == 0 for x in (l, r)):
+                n += 1
+                a, b = l.value.id, r.value.id
+                y_too = any(isinstance(c2.left, ast.Subscript) and isinstance(c2.comparators[0], ast.Subscript) and {getattr(c2.left.value, "id", None), getattr(c2.comparators[0].value, "id", None)} == {a, b}
+                            and isinstance(c2.left.slice, ast.Constant) and c2.left.slice.value == 1 for c2 in cmps)
+                rep.ob(rule, f"{q}:{norm(c)}", y_too, fi.where(c), "x and y are both compared" if y_too else
+                       f"`{norm(c)}` compares two points on x alone: the equation also holds for the negated point, and this arm accepts what the other refuses")
+        for c in whole:
+            n += 1
+            rep.ob(rule, f"{q}:{norm(c)}", True, fi.where(c), "compared whole")
+    rep.ob(rule, "scanned", True, "btclib:1", f"{n} point / name equalities in verifying functions of {module_prefixes}")
+    rep.floor(rule, floor)
